@@ -52,7 +52,8 @@ fn main() {
             report::write_out(out, &s.to_json("C08", seed));
         }
         "c17" => {
-            let s = c17::run(seed, args.usize("histories", 2000), workers, !args.flag("no-faults"));
+            c17::set_no_fmt(args.flag("no-fmt"));
+            let s = c17::run(seed, args.usize("histories", 2000), workers, !args.flag("no-faults"), args.str("types"));
             report::write_out(out, &s.to_json("C17", seed));
         }
         "c18p" => {
@@ -139,6 +140,7 @@ fn main() {
             let t = Instant::now();
             for _ in 0..n { let _ = format!("{}|{}|{}", "abc", 1, 2); }
             eprintln!("format {:?}", t.elapsed() / n as u32);
+            c17::prof();
         }
         "info" => {
             println!("config={} profile={} hidden_lane={}", util::CONFIG_TAG, util::profile_tag(), hidden::HAS_HIDDEN_LANE);
